@@ -54,6 +54,7 @@ type Scenario struct {
 	K          *PinCase   `json:"pin_case,omitempty"`      // C18 key-pinning clause
 	Q          *GSelect   `json:"query,omitempty"`         // generator AST of the statement (C03/C05), used by the shrinker
 	CFaults    [][]Fault  `json:"client_faults,omitempty"` // C19: per-client fault plans (indexed by the client's own call sequence)
+	OneStorage bool       `json:"one_storage,omitempty"`   // C19: all clients pass the same Storage value to the library
 	HookSites  []string   `json:"hook_sites,omitempty"`    // C19: library-internal yield sites enabled in this run
 	HookPerMil int        `json:"hook_permille,omitempty"` // C19: probability (in 1/1000) of a context switch at an enabled site
 	Faults     []Fault    `json:"faults,omitempty"`
@@ -161,7 +162,11 @@ func execStmt(h *Handle, idx int, st Stmt, cfg Config) (res StmtRes) {
 		}()
 		opt := kvql.NewOptimizer(st.Text)
 		var err error
-		plan, err = opt.BuildPlan(h)
+		var store kvql.Storage = h
+		if h.front != nil {
+			store = h.front
+		}
+		plan, err = opt.BuildPlan(store)
 		if err != nil {
 			if qb, ok := err.(kvql.QueryBinder); ok && cfg.Bind {
 				qb.BindQuery(st.Text)
